@@ -265,6 +265,22 @@ Example c11_routing_order_nonvacuous :
 Proof. split; [apply reach_run|exact w_two_spec]. Qed.
 Print Assumptions c11_routing_order_nonvacuous.
 
+(* ---- a request is never visible to a server before its response channel is open ---------------- *)
+(* send_request opens the response channel (set_channel_state) BEFORE deliver_offset.  The
+   correspondence alphabet has a send whose client-side backpressure handler lets a server poll
+   in the middle of the delivery (model/ReqRes.v stepx, XQh); kernel-evaluated on the model: the
+   request that already sits in the buffer of the polling server comes out as a connected
+   ActiveRequest (with the opposite order of the two steps it would be discarded as stale). The
+   invariant theorems of this file are about the 20 operations of `step`; the scripted send is
+   covered by the correspondence runs and this evaluation only. *)
+Example c11_request_visible_only_after_channel_open :
+  let s := run cfg5 w_bph_pre in
+  let r := stepx cfg5 ord_all ord_all s (XQh 0 0) in
+  reach cfg5 s /\ snd r = OQh (OOkN 1) (Some (Some (true, OAct 1 1 1))) /\
+  digest_p (fst r) = [(1, true, false)] /\ digest_a (fst r) = [(1, 0, true, false)].
+Proof. split; [apply reach_run|exact w_bph_spec]. Qed.
+Print Assumptions c11_request_visible_only_after_channel_open.
+
 (* ---- requests: in send order, at most once per server ------------------------------------------ *)
 (* Every request gets a stamp from the global counter at the moment send_request delivers it.
    In every reachable state the receive log of a server, restricted to one client, has strictly
